@@ -321,6 +321,8 @@ def again_scenario(ctx, j):
             def body():
                 yield d0
                 e = evt.event({'instrument': 'vgate', 'freq': f1, 'amp': a1, 'dur': 1.0})
+                if j.get('variant') == 'nogate':
+                    e['send_gate'] = False      # no release is sent: the event must still send its CURRENT values
                 info['t'].append(clk.SystemClock.seconds)
                 e.play()
                 info['ids'].append(e['node_id'])
@@ -626,6 +628,7 @@ def main(tier, seed):
                 jobs.append(dict(kind='play', inst=inst, present=present, add_action=aa, rest=0))
         jobs.append(dict(kind='play', inst=inst, present=['amp'], add_action=None, rest=1))
     jobs.append(dict(kind='again'))
+    jobs.append(dict(kind='again', variant='nogate'))
     jobs += [dict(kind='player', form='pbind', stretch=0), dict(kind='player', form='pbind', stretch=1),
              dict(kind='player', form='ppar'), dict(kind='player', form='pdur'), dict(kind='player', form='pmono'),
              dict(kind='player', form='pbind', tuplekey=True), dict(kind='player', form='pdur', quant=True)]
